@@ -2,7 +2,7 @@
    This file holds ONLY the property theorems (each closed by `exact <lemma>`) and their Print Assumptions. *)
 From Coq Require Import ZArith List Bool.
 From Verif Require Import X86.X86Model X86.X86Proofs X86.X86Denote X86.X86DenoteProofs X86.X86DbCheck.
-From Verif Require Import X86.X86TablesSpec X86.X86Unique X86.X86UniqueProofs.
+From Verif Require Import X86.X86TablesSpec X86.X86Unique X86.X86UniqueProofs X86.X86JudgeProofs.
 From VerifGen Require Import IsaX86Db X86Tables.
 Import ListNotations.
 Local Open Scope Z_scope.
@@ -84,15 +84,50 @@ Theorem C01_tables_cd_agree_db :
 Proof. exact cd_agree_ok. Qed.
 Print Assumptions C01_tables_cd_agree_db.
 
-(* PARTIAL (C01_tables_agree_db of the design): for every instruction id of the encoding classes that use the stored opcode word
-   verbatim, the main or alternative opcode word (mandatory prefix, map, opcode byte, /digit; 0F 01 xx and 3DNow! suffix forms
-   included) is the opcode of some database form of the mnemonic. Not covered: the derived-opcode classes (mov, x87, far
-   call/jmp, pushw, pextr, ...), W / LL / VEX-vs-EVEX kind, and the converse (every database form reached). *)
-Theorem C01_tables_opcode_agree_db_partial :
+(* C01_tables_agree_db of the design, three theorems.  (1) forward: for every instruction id of the encoding classes that use the
+   stored opcode word verbatim (corpus/C01_verbatim_classes.txt), the main or alternative opcode word agrees with some database form
+   of the mnemonic in mandatory prefix, map, opcode byte, /digit (0F 01 xx and 3DNow! suffix forms included), encoding KIND (legacy /
+   VEX / XOP / EVEX against the instruction flags), and W / LL wherever the word fixes them *)
+Theorem C01_tables_opcode_agree_db :
   forallb (fun p => negb (zmem (ie_enc (fst p)) verbatim_classes) || zmem (ie_name (fst p)) opcode_exceptions ||
                     opcode_inst_agrees (snd p) (fst p)) inst_table = true.
 Proof. exact opcode_agree_ok. Qed.
-Print Assumptions C01_tables_opcode_agree_db_partial.
+Print Assumptions C01_tables_opcode_agree_db.
+
+(* (2) converse: for the classes of corpus/C01_converse_classes.txt EVERY supported database form of the mnemonic is encoded by the
+   main or the alternative word (same fields); the listed exceptions are known findings (database forms the table cannot encode) *)
+Theorem C01_tables_opcode_cover_db :
+  forallb (fun p => negb (zmem (ie_enc (fst p)) converse_classes) || zmem (ie_name (fst p)) cover_exceptions ||
+                    opcode_inst_covers (snd p) (fst p)) inst_table = true.
+Proof. exact opcode_cover_ok. Qed.
+Print Assumptions C01_tables_opcode_cover_db.
+
+(* (2b) derived opcodes, class by class: far call / jmp (lcall, ljmp) and pextrb/pextrd/pextrq/extractps, whose handlers add the
+   operand-size prefix 66 themselves: some database form agrees with the main or alternative word AND every database form of the
+   mnemonic is encoded by one of them, where a word without mandatory prefix also stands for the rows with prefix 66.
+   (mov, movabs and pushw have no opcode in the table at all -- their handler hard-codes it; only the per-call judge covers them) *)
+Theorem C01_tables_opcode_size66_agree_db :
+  forallb (fun p => negb (zmem (ie_enc (fst p)) size66_classes) || size66_inst_agrees (snd p) (fst p)) inst_table = true.
+Proof. exact size66_agree_ok. Qed.
+Print Assumptions C01_tables_opcode_size66_agree_db.
+
+(* (3) x87 FpuOp class (two opcode bytes in one word): escape byte and fixed ModRM byte agree with a database form.
+   PARTIAL overall: the other derived-opcode classes (mov, arithmetic immediates, shifts, jcc, far, pextr, the remaining x87
+   classes) are covered by the sweep only *)
+Theorem C01_tables_fpu_op_agree_db_partial :
+  forallb (fun p => negb (ie_enc (fst p) =? 66) || zmem (ie_name (fst p)) fpu_exceptions || fpu_op_agrees (snd p) (fst p)) inst_table = true.
+Proof. exact fpu_op_agree_ok. Qed.
+Print Assumptions C01_tables_fpu_op_agree_db_partial.
+
+(* (3b) x87, the classes that derive their opcodes (FpuArith, FpuCom, FpuFldFst, FpuM, FpuR, FpuRDef, FpuStsw): the forms the handler
+   computes from the word(s) and the FpuM16/32/64/80 flags (X86TablesSpec.fpu_forms, written after the handler) are ALL database rows
+   of the mnemonic, and every database row of the mnemonic is one of them (FpuFldFst: every memory row; its register forms are
+   hard-coded in the handler).  Exceptions: corpus/C01_fpu_exceptions.txt *)
+Theorem C01_tables_fpu_derived_agree_db :
+  forallb (fun p => negb (zmem (ie_enc (fst p)) fpu_derived_classes) || zmem (ie_name (fst p)) fpu_exceptions ||
+                    fpu_derived_agrees (snd p) (fst p)) inst_table = true.
+Proof. exact fpu_derived_agree_ok. Qed.
+Print Assumptions C01_tables_fpu_derived_agree_db.
 
 (* every denotation is backed by the structural decoder, a database row of the opcode and the inverse operand map *)
 Theorem C01_denote_sound : forall m bs rid ops dd len,
@@ -115,6 +150,32 @@ Theorem C01_judge_ok_spec : forall m name ops dc bs,
      ops_match m (explicit_specs (r_ops r)) (op_bits (r_ops r)) ops (explicit_only (r_ops r) dops) = true).
 Proof. exact (judge_ok_spec bucket row_of). Qed.
 Print Assumptions C01_judge_ok_spec.
+
+(* the judge's comparison of prefixes and decorations, in terms of the BYTES: verdict 0 means the call's lock prefix, opmask
+   register and zeroing bit are those of the decoded head of the appended bytes, and its rep/repne, free-standing segment prefix
+   and rounding / sae are the head's as read by a database row of the CALLED mnemonic in the head's opcode bucket (F2 / F3 that the
+   row consumes as its mandatory prefix are not decorations) *)
+Theorem C01_judge_ok_head : forall m name ops dc bs,
+  fst (judge bucket row_of m name ops dc bs) = 0 ->
+  exists h rest r isreg,
+    sdec_head m bs = Some (h, rest) /\ In r (bucket (rh_opc h)) /\ r_name r = name /\
+    d_lock dc = p_lock (rh_pfx h) /\ d_k dc = rh_aaa h /\ d_z dc = rh_z h /\
+    d_f2 dc = d_f2 (head_deco r h isreg) /\ d_f3 dc = d_f3 (head_deco r h isreg) /\
+    d_seg dc = d_seg (head_deco r h isreg) /\ d_rc dc = d_rc (head_deco r h isreg).
+Proof. exact (judge_ok_head bucket row_of db_bucket_row_of). Qed.
+Print Assumptions C01_judge_ok_head.
+
+(* ... and they do not depend on the row: ANY two denotations of the same bytes carry the same lock / opmask / zeroing *)
+Theorem C01_deco_rows_agree : forall m bs rid1 ops1 dd1 len1 rid2 ops2 dd2 len2,
+  In (rid1, ops1, dd1, len1) (denote bucket m bs) -> In (rid2, ops2, dd2, len2) (denote bucket m bs) ->
+  d_lock dd1 = d_lock dd2 /\ d_k dd1 = d_k dd2 /\ d_z dd1 = d_z dd2.
+Proof. exact (deco_rows_agree bucket). Qed.
+Print Assumptions C01_deco_rows_agree.
+
+(* the row the judge finds by id (row_of) reads mnemonic and decorations exactly like the opcode bucket's row of that id *)
+Theorem C01_db_bucket_row_of : forallb (fun o => bucket_row_of_ok row_of (bucket_raw o)) (zrange 256) = true.
+Proof. exact db_bucket_row_of_raw. Qed.
+Print Assumptions C01_db_bucket_row_of.
 
 (* the uniqueness side, judged per call: the list the judge reports next to the verdict is exactly the set of OTHER mnemonics
    the same bytes denote in full (the check accepts only reviewed aliases, corpus/C01_db_alias.txt) *)
